@@ -15,7 +15,9 @@ translator) and (b) an independent python reference of MLIR semantics on bit pat
     diamonds and loops; scf.for over index/i64 with boundary-size lb/ub/step (2^31, 2^53+-1, 2^62, INT64
     MIN/MAX, random) and true trip count 0..4; two nested cf loops (optionally a diamond in the inner body)
     whose inner blocks use outer-loop values by dominance; nested scf.for/scf.if programs and the output of the
-    real convert-scf-to-cf pass on them; all run under an op budget (non-termination = failure), against the
+    real convert-scf-to-cf pass on them; recursive multi-block functions (factorial / sum / fibonacci with a
+    cf.cond_br base case, depth <= 8, pre-call values used after the call) and calls between multi-block
+    functions; all run under an op budget (non-termination = failure), against the
     Coq machine C15/Model.v (control part hand-modelled, arithmetic =
     the generated definitions) and the reference evaluator,
   * float ops (addf subf mulf minimumf maximumf cmpf) on f64 and f32 bit patterns against exact rational
@@ -882,6 +884,52 @@ def gen_scf_nest(rng):
     return {"funcs": [main], "inputs": [rng.choice([0, 1, -1, 9, (1 << (w - 1)) - 1])], "shape": "scf-nest"}
 
 
+def gen_recursive(rng):
+    """(a) a multi-block function (cf.cond_br base case) that calls ITSELF and uses, after the call returns,
+    values defined before the call (n, k*n): factorial / sum-to-n / fibonacci shapes, depth <= 8;
+    (b) a multi-block caller that calls a different multi-block function and uses pre-call values afterwards"""
+    ty = rng.choice([32, 64, "index", 8, 16])
+    ids = iter(range(1, 300))
+    nx = lambda: next(ids)
+    kind = rng.choice(["fact", "sum", "fib", "two"])
+    if kind == "two":
+        x, c3, pre, c0, cc, r, y, z, w0 = nx(), nx(), nx(), nx(), nx(), nx(), nx(), nx(), nx()
+        a, c5, ca, u, v, m, m2 = nx(), nx(), nx(), nx(), nx(), nx(), nx()
+        main = {"rets": [ty], "blocks": [
+            {"args": [[x, ty]], "ops": [["const", c3, ty, 3], ["const", c0, ty, 0], ["bin", pre, "addi", ty, x, c3],
+                                         ["cmpi", cc, rng.choice(["sge", "ne", "slt"]), ty, x, c0]],
+             "term": ["condbr", cc, 1, [], 2, []]},
+            {"args": [], "ops": [["call", [r], [ty], 1, [x]], ["bin", y, "muli", ty, r, pre], ["bin", w0, "addi", ty, y, x]],
+             "term": ["br", 3, [w0]]},
+            {"args": [], "ops": [], "term": ["br", 3, [pre]]},
+            {"args": [[z, ty]], "ops": [], "term": ["ret", [z]]}]}
+        g = {"rets": [ty], "blocks": [
+            {"args": [[a, ty]], "ops": [["const", c5, ty, 5], ["cmpi", ca, "slt", ty, a, c5]], "term": ["condbr", ca, 1, [], 2, []]},
+            {"args": [], "ops": [["bin", u, "addi", ty, a, c5]], "term": ["br", 3, [u]]},
+            {"args": [], "ops": [["bin", v, "subi", ty, a, c5]], "term": ["br", 3, [v]]},
+            {"args": [[m, ty]], "ops": [["bin", m2, "xori", ty, m, a]], "term": ["ret", [m2]]}]}
+        return {"funcs": [main, g], "inputs": [rng.randint(-6, 9)], "shape": "call-multiblock"}
+    x0, r0 = nx(), nx()
+    main = {"rets": [ty], "blocks": [{"args": [[x0, ty]], "ops": [["call", [r0], [ty], 1, [x0]]], "term": ["ret", [r0]]}]}
+    n, c1, c2, ck, c, pre = nx(), nx(), nx(), nx(), nx(), nx()
+    n1, n2, r1, r2, t1, t2, res, out = nx(), nx(), nx(), nx(), nx(), nx(), nx(), nx()
+    k = rng.choice([0, 0, 1, 3])
+    head = {"args": [[n, ty]], "ops": [["const", c1, ty, 1], ["const", c2, ty, 2], ["const", ck, ty, k],
+                                       ["cmpi", c, "slt", ty, n, c2 if kind == "fib" else c1], ["bin", pre, "muli", ty, n, ck]],
+            "term": ["condbr", c, 1, [], 2, []]}
+    base = {"args": [], "ops": [], "term": ["ret", [n if kind == "fib" else (c1 if kind == "fact" else pre)]]}
+    if kind == "fib":
+        ops = [["bin", n1, "subi", ty, n, c1], ["call", [r1], [ty], 1, [n1]], ["bin", n2, "subi", ty, n, c2],
+               ["call", [r2], [ty], 1, [n2]], ["bin", t1, "addi", ty, r1, r2], ["bin", res, "addi", ty, t1, pre]]
+    else:
+        ops = [["bin", n1, "subi", ty, n, c1], ["call", [r1], [ty], 1, [n1]],
+               ["bin", t1, "muli" if kind == "fact" else "addi", ty, r1, n], ["bin", res, "addi", ty, t1, pre]]
+    rec = {"args": [], "ops": ops, "term": ["br", 3, [res]]}
+    tail = {"args": [[out, ty]], "ops": [], "term": ["ret", [out]]}
+    f = {"rets": [ty], "blocks": [head, base, rec, tail]}
+    return {"funcs": [main, f], "inputs": [rng.randint(-1, 8)], "shape": "recursive-" + kind}
+
+
 def lower_scf_to_cf(case):
     """run the REAL convert-scf-to-cf pass on the program and read the result back as a program description
     (cf form), so that it goes through the same implementation / Coq machine / reference pipeline"""
@@ -1660,6 +1708,7 @@ def run(ctx: Ctx):
     k = 6 if thorough else 1
     progs += [gen_huge_for(rng) for _ in range(70 * k)]
     progs += [gen_nested_cf(rng) for _ in range(60 * k)]
+    progs += [gen_recursive(rng) for _ in range(50 * k)]
     lowering_errors = []
     for _ in range(30 * k):
         src = gen_scf_nest(rng)
